@@ -218,10 +218,11 @@ func (r *replayer) checkRec(rec *Rec, rng *rand.Rand) (calls int, nontrivial boo
 		nontrivial = rec.Sat
 	case "lists":
 		e := substOther(rec.E, rng)
-		for _, l := range rec.Ls {
+		for _, l0 := range rec.Ls {
+			l := substAll(l0, rng)
 			o := obsSatisfies(e, l)
 			calls++
-			if common(o, e, l) && (o.Err != rec.Err || o.Sat != rec.Sat) {
+			if common(o, e, l) && !rec.Posdep && (o.Err != rec.Err || o.Sat != rec.Sat) {
 				bad("verdict-depends-on-list-form", "Satisfies", e, l, map[string]bool{"sat": rec.Sat, "err": rec.Err}, o)
 			}
 		}
